@@ -119,6 +119,7 @@ func shortPath() string {
 	}
 	return "/usr/bin:/bin"
 }
+
 var root string // scratch directory (physical path)
 
 func resetEnv(extra [][2]string) {
